@@ -1,0 +1,155 @@
+//go:build verif
+
+package verifhook
+
+// Poisoning of pooled objects (verification only, property C11): the fields that the
+// verification model classifies as Scratch ("contents never read before written
+// within a call") are filled with garbage while the object sits in its sync.Pool.
+// If a later call's result changes, the field was read before it was written.
+
+import (
+	"reflect"
+	"unsafe"
+)
+
+// PoisonFields fills the named fields of the struct obj points to with the byte
+// pattern 0xA5.  For a slice field the elements up to cap() are overwritten (the
+// header is kept); for an array field every element; for a scalar field the value;
+// for a pointer or struct field the contents reachable from it, where only slice /
+// array elements are overwritten and scalar fields of the nested struct itself
+// (sizes, offsets: the shape of the buffer, not its contents) are left alone.
+// Strings, maps, channels, funcs and interfaces are never touched.
+// It returns the names it poisoned and the names that are not fields of the struct.
+func PoisonFields(obj any, fields []string) (done, missing []string) {
+	v := reflect.ValueOf(obj)
+	if v.Kind() != reflect.Pointer || v.IsNil() || v.Elem().Kind() != reflect.Struct {
+		return nil, fields
+	}
+	s := v.Elem()
+	seen := map[uintptr]bool{}
+	for _, name := range fields {
+		f := s.FieldByName(name)
+		if !f.IsValid() {
+			missing = append(missing, name)
+			continue
+		}
+		f = reflect.NewAt(f.Type(), unsafe.Pointer(f.UnsafeAddr())).Elem()
+		poison(f, true, true, seen, 0)
+		done = append(done, name)
+	}
+	return
+}
+
+const poisonMaxDepth = 8
+
+// poisonToCap: overwrite slice elements up to cap() (default) or only up to len().
+// Several pooled buffers are sub-slices of one slab, so poisoning one field to its
+// capacity also overwrites its neighbours; the len-only mode attributes a failure
+// to a single field.
+var poisonToCap = true
+
+// SetPoisonToCap selects the cap() (true) or len() (false) mode.
+func SetPoisonToCap(b bool) { poisonToCap = b }
+
+// poison overwrites v.  scalars: overwrite numeric/bool leaves at this level;
+// top: v is the named field itself.
+func poison(v reflect.Value, scalars, top bool, seen map[uintptr]bool, depth int) {
+	if depth > poisonMaxDepth {
+		return
+	}
+	switch v.Kind() {
+	case reflect.Bool:
+		if scalars && v.CanSet() {
+			v.SetBool(true)
+		}
+	case reflect.Int, reflect.Int8, reflect.Int16, reflect.Int32, reflect.Int64:
+		if scalars && v.CanSet() {
+			var x int64 = -0x5A5A5A5A5A5A5A5B // 0xA5A5…A5 as a signed value
+			switch v.Kind() {
+			case reflect.Int8:
+				x = -0x5B
+			case reflect.Int16:
+				x = -0x5A5B
+			case reflect.Int32:
+				x = -0x5A5A5A5B
+			}
+			v.SetInt(x)
+		}
+	case reflect.Uint, reflect.Uint8, reflect.Uint16, reflect.Uint32, reflect.Uint64, reflect.Uintptr:
+		if scalars && v.CanSet() {
+			x := uint64(0xA5A5A5A5A5A5A5A5)
+			switch v.Kind() {
+			case reflect.Uint8:
+				x = 0xA5
+			case reflect.Uint16:
+				x = 0xA5A5
+			case reflect.Uint32:
+				x = 0xA5A5A5A5
+			}
+			v.SetUint(x)
+		}
+	case reflect.Float32, reflect.Float64:
+		if scalars && v.CanSet() {
+			v.SetFloat(-1.2345e30)
+		}
+	case reflect.Array:
+		for i := 0; i < v.Len(); i++ {
+			poison(v.Index(i), true, false, seen, depth+1)
+		}
+	case reflect.Slice:
+		if v.IsNil() || v.Cap() == 0 {
+			return
+		}
+		full := v
+		if poisonToCap {
+			full = v.Slice(0, v.Cap())
+		}
+		if full.Len() == 0 {
+			return
+		}
+		p := full.Pointer()
+		if seen[p] && !isLeafKind(v.Type().Elem().Kind()) {
+			return
+		}
+		seen[p] = true
+		for i := 0; i < full.Len(); i++ {
+			poison(full.Index(i), true, false, seen, depth+1)
+		}
+	case reflect.Pointer:
+		if v.IsNil() {
+			return
+		}
+		p := v.Pointer()
+		if seen[p] {
+			return
+		}
+		seen[p] = true
+		// contents behind a pointer: a struct's own scalar fields describe the buffer
+		poison(v.Elem(), false, false, seen, depth+1)
+	case reflect.Struct:
+		// sync / atomic values are control state, not buffer contents
+		if pk := v.Type().PkgPath(); pk == "sync" || pk == "sync/atomic" {
+			return
+		}
+		for i := 0; i < v.NumField(); i++ {
+			f := v.Field(i)
+			if !f.CanSet() {
+				if !f.CanAddr() {
+					continue
+				}
+				f = reflect.NewAt(f.Type(), unsafe.Pointer(f.UnsafeAddr())).Elem()
+			}
+			poison(f, scalars && !top, false, seen, depth+1)
+		}
+	}
+}
+
+func isLeafKind(k reflect.Kind) bool {
+	switch k {
+	case reflect.Bool, reflect.Int, reflect.Int8, reflect.Int16, reflect.Int32, reflect.Int64,
+		reflect.Uint, reflect.Uint8, reflect.Uint16, reflect.Uint32, reflect.Uint64, reflect.Uintptr,
+		reflect.Float32, reflect.Float64:
+		return true
+	}
+	return false
+}
